@@ -145,6 +145,55 @@ fn main() {
     }
     Ok(())
   });
+  // C05, bounded exhaustive over pools: presentations assembled from every combination of an issuer-JWT pool, a disclosure
+  // pool (0..2 of them) and a key-binding pool, as a '~' separated text through SdJwt::parse and as parts through SdJwt::new,
+  // into validate_credential, verify_signature and validate_key_binding_jwt: an error or a value, never a panic
+  w("sd_junk_presentations_never_panic", || {
+    let payload_of = |claims: &str| { let mut e = SdObjectEncoder::new(claims).unwrap(); let d = e.conceal("/vc/credentialSubject/degree", None).unwrap(); e.add_sd_alg_property(); (e.try_to_string().unwrap(), d.to_string()) };
+    let (good_payload, good_disc) = payload_of(&format!(r#"{{"iss":"{ISSUER}","nbf":1500,"vc":{{"@context":"https://www.w3.org/2018/credentials/v1","type":["VerifiableCredential"],"credentialSubject":{{"name":"x","degree":"BSc"}}}}}}"#));
+    let hdr = format!(r#"{{"alg":"EdDSA","kid":"{ISSUER}#k"}}"#);
+    let mut jwts: Vec<String> = vec![jws(&hdr, &good_payload, b"good"), jws(&hdr, &good_payload, b"bad"), String::new(), "x".into(), "..".into(), "a.b.c".into(), "e30.e30.e30".into(),
+      jws(&hdr, "{}", b"good"), jws(&hdr, "[]", b"good"), jws(&hdr, r#"{"_sd":"x"}"#, b"good"), jws(&hdr, r#"{"_sd":[1,null,""],"_sd_alg":5}"#, b"good"), jws(&hdr, r#"{"_sd_alg":"md5","iss":"did:example:issuer"}"#, b"good"),
+      jws(&hdr, &good_payload.replace("\"_sd_alg\":\"sha-256\"", "\"_sd_alg\":\"sha-512\""), b"good"), jws(&hdr, &good_payload.replace("\"_sd\":[", "\"_sd\":[\"\","), b"good"),
+      jws(&hdr, &format!(r#"{{"iss":"{ISSUER}","nbf":1500,"cnf":5,"vc":{{"credentialSubject":{{"...":"x","a":[{{"...":7}},{{"...":"{}"}}]}}}}}}"#, "A".repeat(43)), b"good"),
+      jws(r#"{"alg":"EdDSA"}"#, &good_payload, b"good"), jws(r#"{"alg":"none","kid":"did:example:issuer#k"}"#, &good_payload, b""), jws(&format!(r#"{{"alg":"EdDSA","kid":"{ISSUER}#k","typ":7}}"#), &good_payload, b"good")];
+    jwts.push(format!("{}.", jwts[0]));
+    let discs: Vec<String> = vec![good_disc.clone(), String::new(), "%".into(), encode_b64("[]"), encode_b64(r#"["salt"]"#), encode_b64(r#"["salt","k"]"#), encode_b64(r#"["salt","_sd","v"]"#), encode_b64(r#"["salt","...","v"]"#),
+      encode_b64(r#"["salt","degree",{"_sd":["x"],"...":1}]"#), encode_b64(r#"[1,2,3]"#), encode_b64(r#"["salt","k","v","extra"]"#), encode_b64("{}"), good_disc[..good_disc.len() - 1].to_owned(), format!("{good_disc}="), encode_b64(&format!("[{}1{}]", "[".repeat(200), "]".repeat(200)))];
+    let kbh = format!(r#"{{"alg":"EdDSA","kid":"{HOLDER}#k","typ":"{TYP}"}}"#);
+    let kbs: Vec<Option<String>> = vec![None, Some(String::new()), Some("x".into()), Some("a.b.c".into()), Some(kb(&jwts[0], &[good_disc.clone()], Some(TYP), &format!("{HOLDER}#k"), "n1", "verifier", now(), b"good")),
+      Some(jws(&kbh, "{}", b"good")), Some(jws(&kbh, r#"{"iat":"x","aud":5,"nonce":[],"sd_hash":null}"#, b"good")), Some(jws(&kbh, r#"{"iat":1e30,"aud":"verifier","nonce":"n1","sd_hash":""}"#, b"good")),
+      Some(jws(&kbh, r#"{"iat":-9223372036854775808,"aud":"verifier","nonce":"n1","sd_hash":"x"}"#, b"good")), Some(jws(&kbh, r#"{"iat":9223372036854775807,"aud":"verifier","nonce":"n1","sd_hash":"x"}"#, b"good")), Some(jws(r#"{"alg":"EdDSA","typ":"kb+jwt"}"#, "{}", b"good"))];
+    let mut n = 0u32;
+    let mut probe = |what: String, sd: Option<SdJwt>| -> Result<(), String> {
+      let Some(sd) = sd else { return Ok(()) };
+      n += 1;
+      catch_unwind(move || {
+        let v = validator();
+        for ff in [FailFast::FirstError, FailFast::AllErrors] { let _ = v.validate_credential::<_, Object>(&sd, &doc(ISSUER), &JwtCredentialValidationOptions::default(), ff).map(|d| d.credential.issuance_date.to_unix()); }
+        let _ = v.verify_signature::<CoreDocument, Object>(&sd, &[doc(ISSUER), doc(HOLDER)], &JwsVerificationOptions::default()).is_ok();
+        let _ = v.validate_key_binding_jwt(&sd, &doc(HOLDER), &KeyBindingJWTValidationOptions::new().nonce("n1").aud("verifier")).is_ok();
+        let _ = v.validate_key_binding_jwt(&sd, &doc(HOLDER), &KeyBindingJWTValidationOptions::new().earliest_issuance_date(Timestamp::from_unix(0).unwrap()).latest_issuance_date(Timestamp::from_unix(1).unwrap())).is_ok();
+        let _ = (sd.presentation().len(), sd.to_string().len());
+      }).map_err(|_| format!("the SD-JWT validator PANICS for {what}"))
+    };
+    for (ji, j) in jwts.iter().enumerate() { for (ki, k) in kbs.iter().enumerate() {
+      let mut sets: Vec<Vec<String>> = vec![vec![]];
+      for a in &discs { sets.push(vec![a.clone()]); }
+      for a in &discs { for b in &discs { sets.push(vec![a.clone(), b.clone()]); } }
+      for (di, ds) in sets.iter().enumerate() {
+        if ds.len() == 2 && (ki > 4 || ji > 1) { continue; }
+        probe(format!("jwt #{ji}, disclosure set #{di}, key binding #{ki} (as parts)"), Some(SdJwt::new(j.clone(), ds.clone(), k.clone())))?;
+        let text = format!("{j}~{}{}", ds.iter().map(|d| format!("{d}~")).collect::<String>(), k.clone().unwrap_or_default());
+        let t2 = text.clone();
+        let parsed = catch_unwind(move || SdJwt::parse(&t2).ok()).map_err(|_| format!("SdJwt::parse PANICS for {text:?}"))?;
+        probe(format!("jwt #{ji}, disclosure set #{di}, key binding #{ki} (parsed)"), parsed)?;
+      }
+    } }
+    for t in ["", "~", "~~", "~~~", "a~", "~a", "a~~b", "a~b~c", "é~", "\u{0}~\u{0}"] { let t2 = t.to_owned(); let parsed = catch_unwind(move || SdJwt::parse(&t2).ok()).map_err(|_| format!("SdJwt::parse PANICS for {t:?}"))?; probe(format!("text {t:?}"), parsed)?; }
+    if n < 8_000 { return Err(format!("only {n} presentations")); }
+    Ok(())
+  });
   // bounded exhaustive: every string of up to 6 characters over an alphabet that mixes base64 characters, padding, the
   // separator and junk; an accepted value answers every accessor, and the parts recompose to the text
   w("im_small_scope_accessors_total_and_recompose", || {
